@@ -308,9 +308,8 @@ func (w *blobWriter) Write(buf []byte) (int, error) {
 			return 0, err
 		}
 	} else {
-		if w.chunk == nil {
-			w.chunk = make([]byte, 0, w.chunkSize)
-		}
+		// Note: don't allocate the whole chunk up front because the chunk
+		// size can be dictated by the server (OCI-Chunk-Min-Length).
 		w.chunk = append(w.chunk, buf...)
 	}
 	w.size += int64(len(buf))
